@@ -50,18 +50,31 @@ def build(style, n, ret, seen, rename=False):
         kw['_in_variable_names'] = {'a1': 'from'}
     if style == 'out_bare':
         kw['_body_style'] = 'out_bare'
-    elif style in ('empty', 'bare'):
+    elif style in ('empty', 'bare', 'bare_rec'):
         kw['_body_style'] = 'bare'
     if style == 'bare':
         class C(ComplexModel):
             __namespace__ = 'tns'
             _type_info = [('a1', Integer), ('a2', Integer)]
         argt = [C]
+    elif style == 'bare_rec':
+        from spyne import SelfReference
+
+        class Node(ComplexModel):
+            __namespace__ = 'tns'
+            _type_info = [('a1', SelfReference), ('a2', Integer)]
+        argt = [Node]
+        NODE[0] = Node
     else:
         argt = [Integer] * n
 
     def record(args):
-        if style == 'bare':
+        if style == 'bare_rec':
+            c = args[0]
+            nxt = None if c is None else c.a1
+            # (what the function sees of its one argument: the value inside the field a1, and the field a2)
+            seen.append([-1 if nxt is None or nxt.a2 is None else nxt.a2, -1 if c is None or c.a2 is None else c.a2][:n])
+        elif style == 'bare':
             c = args[0]
             seen.append([-1 if c is None or c.a1 is None else c.a1, -1 if c is None or c.a2 is None else c.a2])
         else:
@@ -76,7 +89,7 @@ def build(style, n, ret, seen, rename=False):
             record(args)
             return outcome()
     # srpc introspects the signature for argument names: build a function with named parameters
-    names = ['a%d' % (i + 1) for i in range(n)] if style != 'bare' else ['c']
+    names = ['a%d' % (i + 1) for i in range(n)] if style not in ('bare', 'bare_rec') else ['c']
     src = 'def f(%s):\n    return body(%s)\n' % (', '.join(names), ', '.join(names))
     if ret == 'gen':
         src = 'def f(%s):\n    for x in body(%s):\n        yield x\n' % (', '.join(names), ', '.join(names))
@@ -85,6 +98,9 @@ def build(style, n, ret, seen, rename=False):
     S = type('S', (Service,), {'f': srpc(*argt, **kw)(ns['f'])})
     app = Application([S], 'tns', in_protocol=XmlDocument(), out_protocol=XmlDocument())
     return app
+
+
+NODE = [None]
 
 
 def norm(v):
@@ -128,6 +144,8 @@ def direct(app, case, seen):
     names = [pub(case, i) for i in range(3)]
     for i, m in enumerate(case['modes']):
         v, alt = 10 * (i + 1), 10 * (i + 1) + 5
+        if case['style'] == 'bare_rec' and i == 0:
+            v = NODE[0](a2=v)          # the field a1 is a Node: the value travels inside it
         if m == 'pos': pos.append(v)
         elif m == 'poszero': pos.append(0)
         elif m == 'kwzero': kw[names[i]] = 0
@@ -191,7 +209,8 @@ def wire_xml(app, case, seen):
     from spyne.server.wsgi import WsgiApplication
     w = WsgiApplication(app)
     vals = packed(case)
-    inner = ''.join('<tns:%s>%d</tns:%s>' % (pub(case, i), v, pub(case, i)) for i, v in enumerate(vals) if v is not None)
+    inner = ''.join(('<tns:a1><tns:a2>%d</tns:a2></tns:a1>' % v) if (case['style'] == 'bare_rec' and i == 0) else
+                    '<tns:%s>%d</tns:%s>' % (pub(case, i), v, pub(case, i)) for i, v in enumerate(vals) if v is not None)
     body = ('<tns:f xmlns:tns="tns">%s</tns:f>' % inner).encode()
     del seen[:]
     try:
@@ -227,15 +246,74 @@ def wire_client(app, case, seen, prot):
     return res, [list(s) for s in seen]
 
 
+def histories(ctx, hs):
+    """SpyneNull.Histories on ONE NullServer and ONE Soap11 endpoint of the same application: the header each call saw"""
+    from spyne import Application, Service, rpc, Unicode, ComplexModel
+    from spyne.protocol.soap import Soap11
+    from spyne.server.null import NullServer
+    from spyne.server.wsgi import WsgiApplication
+    from lxml import etree
+
+    class Hdr(ComplexModel):
+        __namespace__ = 'tns'
+        _type_info = [('who', Unicode)]
+
+    def who(ctx):
+        h = ctx.in_header
+        return 'none' if h is None else h.who
+
+    class S(Service):
+        __in_header__ = Hdr
+
+        @rpc(_returns=Unicode)
+        def f(ctx): return who(ctx)
+
+        @rpc(_returns=Unicode)
+        def g(ctx): return who(ctx)
+    recs = []
+    hs = sorted(hs, key=lambda h: json.dumps(h))
+    E = 'http://schemas.xmlsoap.org/soap/envelope/'
+    for h in hs:
+        app = Application([S], 'tns', in_protocol=Soap11(), out_protocol=Soap11())
+        ns = NullServer(app)
+        w = WsgiApplication(app)
+        cur = None
+        direct, wire = [], []
+        for op in h:
+            if op in ('set1', 'set2'):
+                cur = 'h1' if op == 'set1' else 'h2'
+                ns.set_options(soapheaders=Hdr(who=cur))
+            elif op == 'clear':
+                cur = None
+                ns.set_options(soapheaders=None)
+            else:
+                m = op[4:]
+                try:
+                    direct.append(str(getattr(ns.service, m)()))
+                except Exception as e:
+                    direct.append('?%s' % type(e).__name__)
+                hdr = '<e:Header><tns:Hdr><tns:who>%s</tns:who></tns:Hdr></e:Header>' % cur if cur else ''
+                body = ('<e:Envelope xmlns:e="%s" xmlns:tns="tns">%s<e:Body><tns:%s/></e:Body></e:Envelope>' % (E, hdr, m)).encode()
+                try:
+                    st, out = call_wsgi(w, body, 'text/xml')
+                    leaves = [e.text for e in etree.fromstring(out).iter() if len(e) == 0 and e.text]
+                    wire.append(leaves[0] if len(leaves) == 1 else '?%r' % leaves)
+                except Exception as e:
+                    wire.append('?%s' % type(e).__name__)
+        recs.append({'history': h, 'obs': {'direct': direct, 'wire': wire}, 'wire': 'soap11'})
+    return recs
+
+
 def run(ctx):
     from spyne.protocol.soap import Soap11
     from spyne.protocol.xml import XmlDocument
     out = os.path.join(ctx.work, 'null_cases.json')
     cfg = pc.write_cfg(os.path.join(ctx.work, 'expn.cfg'), ['INIT Init', 'NEXT Next', 'CHECK_DEADLOCK FALSE'])
     r0 = tlc.run('ExportNull', cfg, ctx.work, env={'OUT_FILE': out})
-    cases = json.load(open(out))
+    exported = json.load(open(out))
+    cases = exported['cases']
     cases.sort(key=lambda c: json.dumps(c, sort_keys=True))
-    recs = []
+    recs = histories(ctx, exported['histories'])
     for c in cases:
         seen = []
         n = len(c['modes'])
@@ -247,7 +325,7 @@ def run(ctx):
             continue
         dres, dargs = direct(app, c, seen)
         wires = [('xml',) + wire_xml(app, c, seen)]
-        if c['style'] != 'bare':          # JsonDocument cannot take a bare complex request (documented limitation)
+        if c['style'] not in ('bare', 'bare_rec'):          # JsonDocument cannot take a bare complex request (documented limitation)
             wires.append(('json',) + wire_json(app, c, seen))
         if c['style'] in ('wrapped',) and c['ret'] not in ('gen',):
             for name, prot in (('soap11-client', Soap11), ('xml-client', XmlDocument)):
@@ -265,7 +343,7 @@ def run(ctx):
     tf = os.path.join(ctx.work, 'null_traces.ndjson')
     with open(tf, 'w') as f:
         for r in recs:
-            f.write(json.dumps({'case': r['case'], 'obs': r['obs']}) + '\n')
+            f.write(json.dumps({k: v for k, v in r.items() if k in ('case', 'history', 'obs')}) + '\n')
     cfgt = pc.write_cfg(os.path.join(ctx.work, 'tracenull.cfg'), ['INIT Init', 'NEXT Next', 'CONSTRAINT Report', 'CHECK_DEADLOCK FALSE'])
     rt = tlc.run('TraceNull', cfgt, ctx.work, env={'TRACE_FILE': tf}, timeout=900)
     seen_ids = set()
@@ -276,8 +354,13 @@ def run(ctx):
             if p[2]:
                 nfail += 1
                 rec = recs[p[1] - 1]
-                c = rec['case']
                 cl = sorted(p[2])
+                if 'history' in rec:
+                    ctx.violation('%s|history=%s' % ('+'.join(cl), '>'.join(rec['history'])),
+                                  'clauses %s fail for the history %s: direct calls saw %s, wire calls saw %s' % (cl, rec['history'], rec['obs']['direct'], rec['obs']['wire']),
+                                  {'history': rec['history'], 'observation': rec['obs']})
+                    continue
+                c = rec['case']
                 ctx.violation('%s|wire=%s|style=%s|ret=%s|modes=%s%s' % ('+'.join(cl), rec['wire'], c['style'], c['ret'], ','.join(c['modes']) or '-', '|renamed' if c['rename'] else ''),
                               'clauses %s fail: direct %s args %s; wire(%s) %s args %s' % (
                                   cl, rec['obs']['dres'], rec['obs']['dargs'], rec['wire'], rec['obs']['wres'], rec['obs']['wargs']),
@@ -285,11 +368,11 @@ def run(ctx):
     if len(seen_ids) != len(recs):
         raise tlc.TlcError('TraceNull evaluated %d of %d\n%s' % (len(seen_ids), len(recs), rt.stdout[-1500:]))
     ctx.cov_add(states=max(1, r0.distinct), transitions=max(1, r0.generated), traces_validated_against_impl=len(recs) - nfail,
-                evaluations=len(recs), distinct_nontrivial=len(set(json.dumps(r['case'], sort_keys=True) + r['wire'] for r in recs)),
+                evaluations=len(recs), distinct_nontrivial=len(set(json.dumps(r.get('case', r.get('history')), sort_keys=True) + r['wire'] for r in recs)),
                 exhaustive=True, cases=len(cases),
                 rule='SpyneNull.Cases exported by TLC (style x per-argument passing mode x return kind), each run directly through '
                      'NullServer and over XmlDocument (hand-written request, lxml-read reply) and, for the wrapped style, through '
                      'the Soap11 and XmlDocument loopback clients; distinct = distinct (case, wire path)')
     ctx.level = 'exploration'
-    ctx.sample({'case': recs[0]['case'], 'observation': recs[0]['obs'], 'wire': recs[0]['wire']})
-    ctx.sample({'case': recs[len(recs) // 2]['case'], 'observation': recs[len(recs) // 2]['obs'], 'wire': recs[len(recs) // 2]['wire']})
+    ctx.sample({'history': recs[0]['history'], 'observation': recs[0]['obs']})
+    ctx.sample({'case': recs[-1]['case'], 'observation': recs[-1]['obs'], 'wire': recs[-1]['wire']})
